@@ -7,6 +7,7 @@ from sim.plan import canon_user_ops, schedule_sig
 
 ID = "C07"
 LEVEL = "fault_enumeration"
+SELFTEST_REPLAY_COMPARABLE = False      # generate() = a base run plus all its crash runs; replay() = one crash run
 TECHNIQUE = "deterministic simulation with exhaustive crash-point enumeration per run: SimCrash before storage write k / after provider write k for every k, restart on durable state only"
 RULE = ("a seeded base run (flavour, in 30% of runs 1-4 objects already present under the roots before the first start with the providers' read positions at 'latest', 1-6 user ops, either one-sided or two-sided over disjoint partitions /p0 and /p1 (two users fighting over the same path while the process dies has no defined outcome beyond C02's no-loss, and is left to C02), schedule style) is executed fault-free and its storage writes Ns and engine-issued provider writes Np are counted; "
         "then for EVERY k in 1..Ns the identical plan is re-executed with the process dying immediately before storage write k, and for EVERY k in 1..Np immediately after provider "
